@@ -272,3 +272,33 @@ func TestVerifFinding_C20_TurboPhaseActiveNodeNotRegistered(t *testing.T) {
 	_ = d.Get(pathLastSwitch, &last)
 	t.Logf("no panic; pending: %+v %+v; rejected: %+v; last: %+v %+v", sw, sw.Result, rej.Result, last, last.Result)
 }
+
+// (s) as (r), but the switch request names the stale member itself as the target (`mysync switch --to r4` filed while
+// r4 was a member; r4 was removed afterwards and is still in active_nodes): the speed-up phase registers
+// cluster.Get("r4") == nil for optimisation.
+func TestVerifFinding_C20_TurboPhaseTargetNotRegistered(t *testing.T) {
+	app, d := vfC20App(t)
+	app.config.SemiSync = true
+	app.config.RplSemiSyncMasterWaitForSlaveCount = 2
+	app.switchHelper = mysql.NewSwitchHelper(app.config)
+	m1 := vfMaster("m1", vfC20Gtid)
+	r1 := vfReplica("r1", "m1", vfC20Gtid)
+	r2 := vfReplica("r2", "m1", vfC20Gtid)
+	r3 := vfReplica("r3", "m1", vfC20Gtid)
+	m1.SemiSyncMaster, m1.WaitSlaveCount = true, 2
+	r1.SemiSyncSlave, r2.SemiSyncSlave, r3.SemiSyncSlave = true, true, true
+	vfAddNode(t, app, d, m1, false)
+	vfAddNode(t, app, d, r1, false)
+	vfAddNode(t, app, d, r2, false)
+	vfAddNode(t, app, d, r3, false)
+	vfSetLocal(app, m1)
+	vfCompleteApp(t, app)
+	vfHealthFromDB(app, d)
+	d.put(pathMasterNode, "m1")
+	d.put(pathActiveNodes, []string{"m1", "r1", "r2", "r3", "r4"})
+	d.put(pathCurrentSwitch, Switchover{To: "r4", Cause: CauseManual, MasterTransition: SwitchoverTransition, InitiatedBy: "op", InitiatedAt: time.Now()})
+	p, where := vfC20Catch(func() { app.stateManager() })
+	if p != nil {
+		t.Fatalf("VIOLATION C20: manager iteration panicked with a pending switch request to r4, which is in active_nodes but not registered any more: panic: %v [%s]", p, where)
+	}
+}
